@@ -47,6 +47,7 @@ type ThreadRec struct {
 	all     map[int]*Event
 	site    string
 	truncated bool
+	leafPCs   []*Term // path conditions of paths cut at the unroll bound
 }
 
 type ThreadCtx struct {
@@ -126,10 +127,15 @@ type ConcCtx struct {
 	maxThreads int
 	timeline []*Event
 	doneChains map[int][]int
+	prefix   bool
+	selectAlts map[int][]*Event
+	truncs   [][2]interface{} // (path condition, last event) of every path cut at the unroll bound
+	phiPrefix []*Term
+	stuck    *Term
 }
 
 func newConc(e *Exec) *ConcCtx {
-	return &ConcCtx{e: e, chans: map[int]*chanInfo{}, inits: map[string]*Term{}, sorts: map[string]Sort{}, named: map[string]*Event{}, place: map[string]*Term{}, maxThreads: 24, doneChains: map[int][]int{}}
+	return &ConcCtx{e: e, chans: map[int]*chanInfo{}, inits: map[string]*Term{}, sorts: map[string]Sort{}, named: map[string]*Event{}, place: map[string]*Term{}, maxThreads: 24, doneChains: map[int][]int{}, selectAlts: map[int][]*Event{}}
 }
 
 func locKey(p Ptr) string { return fmt.Sprintf("%d%s", p.Obj, p.Path) }
@@ -427,6 +433,7 @@ func (c *ConcCtx) selectOp(e *Exec, st *State, fr *Frame, x *ssa.Select, site st
 	key := -1 - x.Block().Index
 	fr.Visits[key]++
 	if fr.Visits[key] > e.unroll {
+		c.noteTruncation(st)
 		e.issues = append(e.issues, Issue{"bound", fmt.Sprintf("select at %s executed more than %d times on one path: longer executions are outside the bound", site, e.unroll)})
 		return nil
 	}
@@ -457,6 +464,17 @@ func (c *ConcCtx) selectOp(e *Exec, st *State, fr *Frame, x *ssa.Select, site st
 					v, ok := c.recvEvent(e, s, ch, elem, site)
 					rok = ok
 					vals = append(vals, v)
+					// the other receive cases of this select (a select blocks only if ALL its cases are blocked)
+					me := s.Thread.events[len(s.Thread.events)-1]
+					for j2, cs2 := range x.States {
+						if j2 != i && cs2.Dir == types.RecvOnly {
+							ch2 := e.eval(s, sfr, cs2.Chan).(ChanRef)
+							if ch2.Obj != 0 {
+								c.chanOf(ch2)
+								c.selectAlts[me.ID] = append(c.selectAlts[me.ID], &Event{ID: -1, Kind: "recv", Loc: fmt.Sprintf("ch:%d", ch2.Obj), Thread: me.Thread})
+							}
+						}
+					}
 				} else {
 					vals = append(vals, e.zero(elem))
 				}
@@ -552,6 +570,17 @@ func (c *ConcCtx) sharedLoad(e *Exec, st *State, p Ptr, t types.Type, site strin
 
 // ---------- encoding ----------
 
+// gd: the condition under which an event takes part in the execution being encoded: its path guard for complete
+// executions, its "executed in the prefix" flag for the deadlock (prefix) encoding.
+func (c *ConcCtx) gd(ev *Event) *Term {
+	if c.prefix {
+		return c.xvar(ev)
+	}
+	return ev.Guard
+}
+
+func (c *ConcCtx) xvar(ev *Event) *Term { return Var(fmt.Sprintf("x!%d", ev.ID), BoolSort) }
+
 func lt(a, b *Term) *Term { return App("<", BoolSort, a, b) }
 
 func (c *ConcCtx) sideConstraints() []*Term {
@@ -563,6 +592,11 @@ func (c *ConcCtx) sideConstraints() []*Term {
 
 func (c *ConcCtx) finish(e *Exec, res *HarnessResult) {
 	c.build(e)
+	if e.cfg["deadlock"] != "" {
+		c.buildPrefix(e)
+		e.addOblig(&Obligation{ID: e.harness + ".no_deadlock_or_lost_wakeup", Kind: "deadlock", PC: True, Cond: True, Raw: append(append([]*Term(nil), c.phiPrefix...), c.stuck), NoReplay: true,
+			Site: "all threads", Detail: "a reachable prefix in which some thread is blocked forever and no thread can take a step"})
+	}
 	res.Events = len(c.events)
 	res.Threads = len(c.threads)
 	res.Bounds["threads"] = fmt.Sprint(len(c.threads))
@@ -735,23 +769,23 @@ func (c *ConcCtx) encodeAtomic(loc string, evs []*Event, add func(*Term)) {
 			if w == r {
 				continue
 			}
-			none = append(none, Or(Not(w.Guard), lt(r.Clk, w.Clk)))
+			none = append(none, Or(Not(c.gd(w)), lt(r.Clk, w.Clk)))
 		}
 		opts = append(opts, And(append(none, Eq(r.Read, init))...))
 		for _, w := range writes {
 			if w == r {
 				continue
 			}
-			conj := []*Term{w.Guard, lt(w.Clk, r.Clk), Eq(r.Read, w.Write)}
+			conj := []*Term{c.gd(w), lt(w.Clk, r.Clk), Eq(r.Read, w.Write)}
 			for _, w2 := range writes {
 				if w2 == w || w2 == r {
 					continue
 				}
-				conj = append(conj, Or(Not(w2.Guard), lt(w2.Clk, w.Clk), lt(r.Clk, w2.Clk)))
+				conj = append(conj, Or(Not(c.gd(w2)), lt(w2.Clk, w.Clk), lt(r.Clk, w2.Clk)))
 			}
 			opts = append(opts, And(conj...))
 		}
-		add(Implies(r.Guard, Or(opts...)))
+		add(Implies(c.gd(r), Or(opts...)))
 	}
 }
 
@@ -777,11 +811,11 @@ func (c *ConcCtx) encodeMutex(evs []*Event, add func(*Term)) {
 			if a.lock.Thread == b.lock.Thread {
 				continue // ordered by program order (self-deadlock is checked by the deadlock query)
 			}
-			both := And(a.lock.Guard, b.lock.Guard)
+			both := And(c.gd(a.lock), c.gd(b.lock))
 			before := func(x, y section) *Term {
 				var opts []*Term
 				for _, u := range x.unlocks {
-					opts = append(opts, And(u.Guard, lt(u.Clk, y.lock.Clk)))
+					opts = append(opts, And(c.gd(u), lt(u.Clk, y.lock.Clk)))
 				}
 				return Or(opts...)
 			}
@@ -814,12 +848,12 @@ func (c *ConcCtx) encodeWaitGroup(evs []*Event, add func(*Term)) {
 				neg := BVCmp("bvslt", d, BVConst(0, d.Sort.W))
 				di = Ite(neg, App("-", IntSort, App("bv2nat", IntSort, BVNeg(d))), App("bv2nat", IntSort, d))
 			}
-			sum = App("+", IntSort, sum, Ite(And(a.Guard, lt(a.Clk, w.Clk)), di, IntConst(0)))
+			sum = App("+", IntSort, sum, Ite(And(c.gd(a), lt(a.Clk, w.Clk)), di, IntConst(0)))
 			if a.Thread != w.Thread {
 				add(Not(Eq(a.Clk, w.Clk)))
 			}
 		}
-		add(Implies(w.Guard, Eq(sum, IntConst(0))))
+		add(Implies(c.gd(w), Eq(sum, IntConst(0))))
 	}
 }
 
@@ -843,9 +877,9 @@ func (c *ConcCtx) encodeCond(byLoc map[string][]*Event, add func(*Term)) {
 				if b.Thread == w.Thread {
 					continue
 				}
-				opts = append(opts, And(b.Guard, lt(park.Clk, b.Clk), lt(b.Clk, w.Clk)))
+				opts = append(opts, And(c.gd(b), lt(park.Clk, b.Clk), lt(b.Clk, w.Clk)))
 			}
-			add(Implies(w.Guard, Or(opts...)))
+			add(Implies(c.gd(w), Or(opts...)))
 		}
 	}
 }
@@ -886,21 +920,21 @@ func (c *ConcCtx) encodeChans(e *Exec, byLoc map[string][]*Event, add func(*Term
 				// some arming precedes the receive with no stop in between
 				var armed []*Term
 				for _, a := range arms {
-					conj := []*Term{a.Guard, lt(a.Clk, r.Clk)}
+					conj := []*Term{c.gd(a), lt(a.Clk, r.Clk)}
 					for _, s := range stops {
-						conj = append(conj, Or(Not(s.Guard), lt(s.Clk, a.Clk), lt(r.Clk, s.Clk)))
+						conj = append(conj, Or(Not(c.gd(s)), lt(s.Clk, a.Clk), lt(r.Clk, s.Clk)))
 					}
 					if ci.kind == "timer" {
 						// one delivery per arming: no other receive between this arming and r
 						for j, r2 := range recvs {
 							if j != i {
-								conj = append(conj, Or(Not(r2.Guard), lt(r2.Clk, a.Clk), lt(r.Clk, r2.Clk)))
+								conj = append(conj, Or(Not(c.gd(r2)), lt(r2.Clk, a.Clk), lt(r.Clk, r2.Clk)))
 							}
 						}
 					}
 					armed = append(armed, And(conj...))
 				}
-				add(Implies(r.Guard, And(r.Read, Or(armed...))))
+				add(Implies(c.gd(r), And(r.Read, Or(armed...))))
 			}
 			continue
 		}
@@ -915,7 +949,7 @@ func (c *ConcCtx) encodeChans(e *Exec, byLoc map[string][]*Event, add func(*Term
 					continue
 				}
 				m := Var(fmt.Sprintf("match!%d!%d", r.ID, s.ID), BoolSort)
-				conj := []*Term{m, s.Guard, r.Read}
+				conj := []*Term{m, c.gd(s), r.Read}
 				if ci != nil && ci.cap > 0 {
 					conj = append(conj, lt(s.Clk, r.Clk))
 				} else {
@@ -934,9 +968,9 @@ func (c *ConcCtx) encodeChans(e *Exec, byLoc map[string][]*Event, add func(*Term
 				opts = append(opts, And(conj...))
 			}
 			for _, cl := range closes {
-				opts = append(opts, And(cl.Guard, lt(cl.Clk, r.Clk), Not(r.Read)))
+				opts = append(opts, And(c.gd(cl), lt(cl.Clk, r.Clk), Not(r.Read)))
 			}
-			add(Implies(r.Guard, Or(opts...)))
+			add(Implies(c.gd(r), Or(opts...)))
 		}
 		// unbuffered / full-buffer sends must be received for the sender to proceed (quiescent executions)
 		if ci == nil || ci.cap == 0 {
@@ -944,16 +978,16 @@ func (c *ConcCtx) encodeChans(e *Exec, byLoc map[string][]*Event, add func(*Term
 				var opts []*Term
 				for _, r := range recvs {
 					if r.Thread != s.Thread {
-						opts = append(opts, And(r.Guard, Var(fmt.Sprintf("match!%d!%d", r.ID, s.ID), BoolSort)))
+						opts = append(opts, And(c.gd(r), Var(fmt.Sprintf("match!%d!%d", r.ID, s.ID), BoolSort)))
 					}
 				}
-				add(Implies(s.Guard, Or(opts...)))
+				add(Implies(c.gd(s), Or(opts...)))
 			}
 		}
 		// at most one close
 		for i := 0; i < len(closes); i++ {
 			for j := i + 1; j < len(closes); j++ {
-				e.addOblig(&Obligation{ID: e.harness + ".no_double_close", Kind: "assert", PC: And(closes[i].Guard, closes[j].Guard), Cond: False, Site: closes[j].Site})
+				e.addOblig(&Obligation{ID: e.harness + ".no_double_close", Kind: "assert", PC: And(c.gd(closes[i]), c.gd(closes[j])), Cond: False, Site: closes[j].Site})
 			}
 		}
 	}
@@ -983,13 +1017,13 @@ func (c *ConcCtx) encodeCtx(e *Exec, byLoc map[string][]*Event, add func(*Term))
 		clk := Var(fmt.Sprintf("clk!deadline!%d", id), IntSort)
 		fired := Var(fmt.Sprintf("deadline!fired!%d", id), BoolSort)
 		dlFire[id], dlFired[id] = clk, fired
-		add(Implies(fired, And(evs[0].Guard, lt(evs[0].Clk, clk))))
+		add(Implies(fired, And(c.gd(evs[0]), lt(evs[0].Clk, clk))))
 	}
 	cancelledBefore := func(chain []int, clk *Term) *Term {
 		var opts []*Term
 		for _, id := range chain {
 			for _, cv := range cancels[id] {
-				opts = append(opts, And(cv.Guard, lt(cv.Clk, clk)))
+				opts = append(opts, And(c.gd(cv), lt(cv.Clk, clk)))
 			}
 			if f, ok := dlFired[id]; ok {
 				opts = append(opts, And(f, lt(dlFire[id], clk)))
@@ -1006,7 +1040,7 @@ func (c *ConcCtx) encodeCtx(e *Exec, byLoc map[string][]*Event, add func(*Term))
 				chain = append(chain, id)
 			}
 			for _, ev := range evs {
-				add(Implies(ev.Guard, Eq(ev.Read, cancelledBefore(chain, ev.Clk))))
+				add(Implies(c.gd(ev), Eq(ev.Read, cancelledBefore(chain, ev.Clk))))
 			}
 		}
 	}
@@ -1026,7 +1060,7 @@ func (c *ConcCtx) encodeCtx(e *Exec, byLoc map[string][]*Event, add func(*Term))
 				continue
 			}
 			chain := c.doneChains[id]
-			add(Implies(ev.Guard, And(Not(ev.Read), cancelledBefore(chain, ev.Clk))))
+			add(Implies(c.gd(ev), And(Not(ev.Read), cancelledBefore(chain, ev.Clk))))
 		}
 	}
 }
@@ -1133,4 +1167,292 @@ func keepAlive(ts []*Term) []*Term {
 		out = append(out, mk("keep", BoolSort, 0, 0, "", t))
 	}
 	return out
+}
+
+// ---------- deadlock / lost wake-up (prefix) encoding ----------
+//
+// A second encoding of the same events in which every event has an "executed" flag (prefix-closed per thread).
+// A deadlock is a reachable prefix in which no thread can take another step: every thread has either finished or
+// its next event is a blocking operation that is disabled in the final state of the prefix (mutex held forever,
+// no broadcast after the park, wait-group counter not zero, nothing to receive, context never cancelled).
+
+func isBlockingKind(k string) bool {
+	switch k {
+	case "lock", "rlock", "condwake", "wgwait", "recv":
+		return true
+	}
+	return false
+}
+
+func (c *ConcCtx) buildPrefix(e *Exec) {
+	c.prefix = true
+	defer func() { c.prefix = false }()
+	var phi []*Term
+	add := func(t *Term) {
+		if !t.IsTrue() {
+			phi = append(phi, t)
+		}
+	}
+	byThread := map[int][]*Event{}
+	for _, ev := range c.events {
+		byThread[ev.Thread] = append(byThread[ev.Thread], ev)
+	}
+	x := c.xvar
+	// prevDone(e): every earlier event of the thread that lies on the actual path has been executed
+	prevDone := map[int]*Term{}
+	for _, evs := range byThread {
+		acc := True
+		for i, ev := range evs {
+			if i > 0 {
+				add(lt(evs[i-1].Clk, ev.Clk))
+			}
+			prevDone[ev.ID] = acc
+			add(Implies(x(ev), And(ev.Guard, acc)))
+			acc = And(acc, Implies(ev.Guard, x(ev)))
+		}
+	}
+	for _, t := range c.threads {
+		if t.spawnEv != nil {
+			first := byThread[t.id][0]
+			add(lt(t.spawnEv.Clk, first.Clk))
+			// a spawned thread starts; an unspawned one does not run
+			add(Eq(x(first), x(t.spawnEv)))
+		}
+	}
+	byLoc := map[string][]*Event{}
+	for _, ev := range c.events {
+		if ev.Loc != "" {
+			byLoc[ev.Loc] = append(byLoc[ev.Loc], ev)
+		}
+	}
+	locs := make([]string, 0, len(byLoc))
+	for l := range byLoc {
+		locs = append(locs, l)
+	}
+	sort.Strings(locs)
+	for _, loc := range locs {
+		switch loc[0] {
+		case 'a':
+			c.encodeAtomic(loc, byLoc[loc], add)
+		case 'm':
+			c.encodeMutex(byLoc[loc], add)
+		case 'w':
+			c.encodeWaitGroup(byLoc[loc], add)
+		}
+	}
+	c.encodeCond(byLoc, add)
+	c.encodeChans(e, byLoc, add)
+	c.encodeCtx(e, byLoc, add)
+
+	// enabledness of blocking events in the final state of the prefix
+	enabled := func(ev *Event) *Term {
+		evs := byLoc[ev.Loc]
+		switch ev.Kind {
+		case "lock", "rlock":
+			var held []*Term
+			for _, o := range evs {
+				if (o.Kind == "lock" || (o.Kind == "rlock" && ev.Kind == "lock")) && o != ev {
+					conj := []*Term{x(o)}
+					for _, u := range o.Aux {
+						conj = append(conj, Not(x(u)))
+					}
+					held = append(held, And(conj...))
+				}
+			}
+			return Not(Or(held...))
+		case "condwake":
+			var opts []*Term
+			for _, b := range evs {
+				if b.Kind == "broadcast" && b.Thread != ev.Thread {
+					opts = append(opts, And(x(b), lt(ev.Pair.Clk, b.Clk)))
+				}
+			}
+			return Or(opts...)
+		case "wgwait":
+			var sum *Term = IntConst(0)
+			for _, a := range evs {
+				if a.Kind == "wgadd" {
+					d := a.Val
+					var di *Term
+					if d.IsConst() {
+						di = IntConst(d.SVal())
+					} else if d.Sort.K == SInt {
+						di = d
+					} else {
+						neg := BVCmp("bvslt", d, BVConst(0, d.Sort.W))
+						di = Ite(neg, App("-", IntSort, App("bv2nat", IntSort, BVNeg(d))), App("bv2nat", IntSort, d))
+					}
+					sum = App("+", IntSort, sum, Ite(x(a), di, IntConst(0)))
+				}
+			}
+			return Eq(sum, IntConst(0))
+		case "recv":
+			var id int
+			fmt.Sscanf(ev.Loc, "ch:%d", &id)
+			ci := c.chans[id]
+			if ci != nil && (ci.kind == "ticker" || ci.kind == "timer") {
+				return True // the environment can always deliver (conservative: never the cause of a deadlock)
+			}
+			if ci != nil && ci.kind == "done" {
+				var opts []*Term
+				for _, cid := range c.doneChains[id] {
+					for _, cv := range byLoc[fmt.Sprintf("ctx:%d", cid)] {
+						if cv.Kind == "cancel" {
+							opts = append(opts, x(cv))
+						}
+						if cv.Kind == "mkdeadline" {
+							opts = append(opts, x(cv)) // a deadline eventually fires
+						}
+					}
+				}
+				return Or(opts...)
+			}
+			var opts []*Term
+			nsend, nrecv := IntConst(0), IntConst(0)
+			for _, o := range evs {
+				switch o.Kind {
+				case "close":
+					opts = append(opts, x(o))
+				case "send":
+					nsend = App("+", IntSort, nsend, Ite(x(o), IntConst(1), IntConst(0)))
+				case "recv":
+					nrecv = App("+", IntSort, nrecv, Ite(x(o), IntConst(1), IntConst(0)))
+				}
+			}
+			opts = append(opts, App("<", BoolSort, nrecv, nsend))
+			return Or(opts...)
+		}
+		return True
+	}
+	for _, tr := range c.truncs {
+		add(Not(And(tr[0].(*Term), x(tr[1].(*Event)))))
+	}
+	// the values read / chosen by a thread must be consistent with one of its symbolic paths (this is what keeps
+	// harness assumptions in force for prefixes)
+	for _, t := range c.threads {
+		var leaves []*Term
+		leaves = append(leaves, t.finals...)
+		leaves = append(leaves, t.panics...)
+		leaves = append(leaves, t.leafPCs...)
+		started := True
+		if t.spawnEv != nil {
+			started = x(t.spawnEv)
+		}
+		add(Implies(started, Or(leaves...)))
+	}
+	var stuckAny []*Term
+	for _, t := range c.threads {
+		evs := byThread[t.id]
+		for _, ev := range evs {
+			next := And(ev.Guard, prevDone[ev.ID], Not(x(ev))) // ev is the thread's next step
+			if t.spawnEv != nil && ev == evs[0] {
+				continue
+			}
+			if !isBlockingKind(ev.Kind) {
+				add(Not(next)) // non-blocking steps are always taken
+				continue
+			}
+			sel := c.selectAlts[ev.ID]
+			en := enabled(ev)
+			for _, alt := range sel {
+				en = Or(en, enabled(alt))
+			}
+			add(Implies(next, Not(en)))
+			started := True
+			if t.spawnEv != nil {
+				started = x(t.spawnEv)
+			}
+			stuckAny = append(stuckAny, And(next, started))
+		}
+	}
+	c.phiPrefix = phi
+	c.stuck = Or(stuckAny...)
+}
+
+// writePrefixTrace prints the deadlocked prefix: executed events in clock order and, per thread, where it is stuck.
+func (c *ConcCtx) writePrefixTrace(e *Exec, dir string, asserts []*Term, timeoutS int) {
+	var extra []*Term
+	for _, ev := range c.events {
+		extra = append(extra, c.xvar(ev), ev.Clk, ev.Guard)
+		if ev.Read != nil {
+			extra = append(extra, ev.Read)
+		}
+		if ev.Write != nil {
+			extra = append(extra, ev.Write)
+		}
+	}
+	script := Script(append(append([]*Term(nil), asserts...), keepAlive(extra)...), true, "")
+	var sb strings.Builder
+	sb.WriteString("(get-value (")
+	seen := map[int]bool{}
+	for _, t := range extra {
+		if !seen[t.ID] && !t.IsConst() {
+			seen[t.ID] = true
+			sb.WriteString(t.ref() + " ")
+		}
+	}
+	sb.WriteString("))\n")
+	fr := RunScript("z3", script+sb.String(), nil, time.Duration(timeoutS)*time.Second, "")
+	if fr.Res != "sat" {
+		fr = RunScript("z3new", script+sb.String(), nil, time.Duration(timeoutS)*time.Second, "")
+	}
+	if fr.Res != "sat" {
+		os.WriteFile(filepath.Join(dir, "schedule.txt"), []byte("could not re-derive the schedule ("+fr.Res+")\n"), 0o644)
+		return
+	}
+	vals := parseGetValueRaw(fr.Out)
+	val := func(t *Term) string {
+		if t.IsConst() {
+			return t.ref()
+		}
+		return vals[t.ref()]
+	}
+	type row struct {
+		clk int64
+		txt string
+	}
+	var rows []row
+	var out strings.Builder
+	out.WriteString("deadlocked prefix: executed events in clock order, then the step each unfinished thread is blocked at\n")
+	stuckAt := map[int]string{}
+	for _, ev := range c.events {
+		if val(c.xvar(ev)) == "true" {
+			ck, _ := modelInt(val(ev.Clk))
+			d := ""
+			if ev.Read != nil {
+				d += " read=" + short(val(ev.Read))
+			}
+			if ev.Write != nil {
+				d += " write=" + short(val(ev.Write))
+			}
+			rows = append(rows, row{ck, fmt.Sprintf("%6d  %-22s %-10s %-14s%s  @%s", ck, c.threads[ev.Thread].name, ev.Kind, ev.Loc, d, ev.Site)})
+		} else if val(ev.Guard) == "true" {
+			if _, ok := stuckAt[ev.Thread]; !ok {
+				stuckAt[ev.Thread] = fmt.Sprintf("%-22s BLOCKED at %s %s @%s", c.threads[ev.Thread].name, ev.Kind, ev.Loc, ev.Site)
+			}
+		}
+	}
+	sort.Slice(rows, func(i, j int) bool { return rows[i].clk < rows[j].clk })
+	for _, r := range rows {
+		out.WriteString(r.txt + "\n")
+	}
+	var ts []int
+	for t := range stuckAt {
+		ts = append(ts, t)
+	}
+	sort.Ints(ts)
+	for _, t := range ts {
+		out.WriteString(stuckAt[t] + "\n")
+	}
+	os.WriteFile(filepath.Join(dir, "schedule.txt"), []byte(out.String()), 0o644)
+}
+
+// noteTruncation records that the current thread path was cut at the unroll bound: prefixes running into the cut
+// are excluded from the deadlock query (they are outside the bound, not stuck).
+func (c *ConcCtx) noteTruncation(st *State) {
+	if st.Thread == nil || len(st.Thread.events) == 0 {
+		return
+	}
+	c.truncs = append(c.truncs, [2]interface{}{st.PCTerm(), st.Thread.events[len(st.Thread.events)-1]})
+	st.Thread.rec.leafPCs = append(st.Thread.rec.leafPCs, st.PCTerm())
 }
